@@ -40,6 +40,10 @@ structure DSt where
   markers : List String
   /-- keys whose delete was acknowledged and that were not set again -/
   ackDel : List String
+  /-- a stale close callback removed a fresh instance from the map -/
+  orphaned : Bool := false
+  /-- mode stop: GracefulStop has returned (the data directory was copied at that instant) -/
+  stopped : Option Nat := none
 
 def keyNum (k : String) : Nat := match k with | "a" => 1 | "b" => 2 | "c" => 3 | _ => 9
 
@@ -70,6 +74,12 @@ def act (d : DSt) (a : Act) : Option DSt :=
 
 def acts (d : DSt) (as : List Act) : Option DSt := as.foldlM act d
 
+/-- the end of an auto-destroy: with the re-check a swamp that is not empty any more is closed (flushed) instead -/
+def destroyFin (d : DSt) (t : Nat) : Option DSt :=
+  match act d (.destroyFinish t) with
+  | none => none
+  | some d1 => if d1.s.live && d1.s.stage == 1 then acts d1 [.closeFlush, .closeDone] else some d1
+
 def flag (d0 d : DSt) (cause : String) : DSt × String :=
   if !d.flagged && durableB d0.s && !durableB d.s then ({ d with flagged := true }, s!"\t#F:{cause}") else (d, "")
 
@@ -78,8 +88,10 @@ def writeV (d : DSt) (g : Nat) (k v : String) : DSt × String :=
   let m := memOf d g
   match m.find? (·.key == k) with
   | none =>
-    let d' := if d.recreateDropsMarker && g == d.s.gen then { d with markers := d.markers.filter (· != k) } else d
-    ({ setMem d' g (m ++ [{ key := k, val := v, dirty := true, persisted := false }]) with ackDel := d.ackDel.filter (· != k) }, "NEW")
+    -- the re-created record replaces the queued delete marker; in the repaired form it inherits the marker's file pointer
+    let had := g == d.s.gen && d.markers.contains k
+    let d' := if g == d.s.gen then { d with markers := d.markers.filter (· != k) } else d
+    ({ setMem d' g (m ++ [{ key := k, val := v, dirty := true, persisted := had && !d.recreateDropsMarker }]) with ackDel := d.ackDel.filter (· != k) }, "NEW")
   | some r =>
     if r.dirty || r.val != v then
       (setMem d g (m.map (fun x => if x.key == k then { x with val := v, dirty := true } else x)), "UPDATED")
@@ -104,7 +116,7 @@ def idOf (n : String) : Nat := match n with | "A" => 1 | "B" => 2 | "C" => 3 | _
 def step (d : DSt) (line : String) : DSt × String :=
   match words line with
   | ["case", _, _, _] =>
-    ({ d with s := init [], gens := [], fileV := [], ths := [], next := 10, flagged := false, markers := [], ackDel := [] }, line)
+    ({ d with s := init [], gens := [], fileV := [], ths := [], next := 10, flagged := false, markers := [], ackDel := [], orphaned := false, stopped := none }, line)
   | ["set", k, v] =>
     let t := d.next
     match acts d (summonActs d t) with
@@ -126,12 +138,42 @@ def step (d : DSt) (line : String) : DSt × String :=
       match act d2 (.del t (keyNum k)) with
       | none => (d, "ERR")
       | some d3 =>
-        let fin := if (d3.s.th t).pc == 4 then Act.destroyFinish t else Act.cease t
-        match act d3 fin with
+        match (if (d3.s.th t).pc == 4 then destroyFin d3 t else act d3 (.cease t)) with
         | some d4 =>
           let (d5, fl) := flag d d4 "C16-auto-destroy-loses-acked-write"
           ({ d5 with next := t + 1 }, st ++ fl)
         | none => (d, "hang")
+  | ["spawn", n, "close"] =>
+    if d.ths.any (·.name == n) then (d, "bad-op") else
+    if !d.s.live || d.s.closing then
+      ({ d with ths := d.ths ++ [{ name := n, id := idOf n, kind := "close", key := "", val := "", stage := "done", gen := d.s.gen }] }, s!"{n} done closed")
+    else
+      -- Close(): flip, flush, cancel; parked before the callback that removes the map entry
+      match act { d with s := { d.s with closing := true, stage := 1 } } .closeFlush with
+      | some d1 => ({ d1 with ths := d1.ths ++ [{ name := n, id := idOf n, kind := "close", key := "", val := "", stage := "flushed", gen := d.s.gen }] }, s!"{n}@swamp.closed")
+      | none => (d, "ERR")
+  | ["spawnw", n, "set", k, v] =>
+    if d.ths.any (·.name == n) then (d, "bad-op") else
+    match act d (.summon (idOf n)) with
+    | none =>
+      let t : Th := { name := n, id := idOf n, kind := "set", key := k, val := v, stage := "waiting", gen := 0 }
+      ({ d with ths := d.ths ++ [t] }, s!"{n} waiting")
+    | some d1 =>
+      let t : Th := { name := n, id := idOf n, kind := "set", key := k, val := v, stage := "summoned", gen := (d1.s.th (idOf n)).gen }
+      ({ d1 with ths := d1.ths ++ [t] }, s!"{n}@gw.set.summoned")
+  | ["poll", n] =>
+    match d.ths.find? (·.name == n) with
+    | none => (d, "bad-op")
+    | some t =>
+      let upd := fun (d' : DSt) (stage : String) (g : Nat) => { d' with ths := d'.ths.map (fun u => if u.name == n then { u with stage := stage, gen := g } else u) }
+      match t.kind, t.stage with
+      | "set", "waiting" =>
+        match act d (.summon t.id) with
+        | none => (d, s!"{n} waiting")
+        | some d1 => (upd d1 "summoned" (d1.s.th t.id).gen, s!"{n}@gw.set.summoned")
+      | "set", "summoned" => (d, s!"{n}@gw.set.summoned")
+      | "set", "vigil" => (d, s!"{n}@gw.set.vigil")
+      | _, _ => (d, "bad-op")
   | ["spawn", n, "set", k, v] =>
     if d.ths.any (·.name == n) then (d, "bad-op") else
     match act d (.summon (idOf n)) with
@@ -155,7 +197,7 @@ def step (d : DSt) (line : String) : DSt × String :=
           let t : Th := { name := n, id := tid, kind := "del", key := k, val := st, stage := "draining", gen := g }
           -- with nobody else holding a vigil the drain is immediate
           if d3.s.holders.isEmpty then
-            match act d3 (.destroyFinish tid) with
+            match destroyFin d3 tid with
             | some d4 =>
               let (d5, fl) := flag d d4 "C16-auto-destroy-loses-acked-write"
               ({ d5 with ths := d5.ths ++ [{ t with stage := "done" }] }, s!"{n} done {st}" ++ fl)
@@ -180,11 +222,21 @@ def step (d : DSt) (line : String) : DSt × String :=
         let (d1, st) := writeV d t.gen t.key t.val
         match acts d1 [.write t.id (keyNum t.key), .cease t.id] with
         | some d2 =>
-          let (d3, fl) := flag d d2 "C16-idle-close-loses-acked-write"
+          let (d3, fl) := flag d d2 (if d.orphaned then "C16-summon-replaces-closing-instance" else "C16-idle-close-loses-acked-write")
           (upd d3 "done", s!"{n} done {st}" ++ fl)
         | none => (d, "ERR")
+      | "close", "flushed" =>
+        -- the close callback removes whatever is mapped under the name
+        if d.s.unmapPending then
+          match act d .staleUnmap with
+          | some d1 => (upd { d1 with orphaned := true } "done", s!"{n} done closed")
+          | none => (d, "ERR")
+        else
+          match act d .closeDone with
+          | some d1 => (upd d1 "done", s!"{n} done closed")
+          | none => (d, "ERR")
       | "del", "draining" =>
-        match act d (.destroyFinish t.id) with
+        match destroyFin d t.id with
         | some d1 =>
           let (d2, fl) := flag d d1 "C16-auto-destroy-loses-acked-write"
           (upd d2 "done", s!"{n} done {t.val}" ++ fl)
@@ -203,6 +255,23 @@ def step (d : DSt) (line : String) : DSt × String :=
         | some d2 => (d2, "tick closed")
         | none => (d1, "ERR")
       else (d1, "tick noclose")
+  | ["stop"] =>
+    if d.stopped.isSome then (d, "bad-op") else
+    if d.cfg.stopWaitsUntilClosed then
+      -- Close() on every mapped instance (nothing is in flight), then wait until none is mapped
+      let d1 := if d.s.live && !d.s.closing then
+          (acts { d with s := { d.s with closing := true, stage := 1 } } [.closeFlush, .closeDone]).getD d else d
+      match act d1 .exit with
+      | some d2 => ({ d2 with stopped := some 0 }, "stopped open=0")
+      | none => (d, "hang")
+    else
+      -- it returns while the close is still to come
+      let n := if d.s.live then 1 else 0
+      match act d .exit with
+      | some d2 =>
+        let (d3, fl) := flag d d2 "C16-stop-returns-before-swamps-closed"
+        ({ d3 with stopped := some n }, s!"stopped open={n}" ++ fl)
+      | none => (d, "hang")
   | ["close"] =>
     if !d.s.live then (d, "closed") else
     -- Close() itself checks nothing: flip, flush, callback
@@ -212,6 +281,7 @@ def step (d : DSt) (line : String) : DSt × String :=
     | some d2 => (d2, "closed")
     | none => (d, "ERR")
   | ["reopen"] =>
+    if d.stopped.isSome && d.stopped != some 0 then (d, "keys=?") else
     let back := fun (x : DSt) => if (memOf x x.s.gen).any (fun r => x.ackDel.contains r.key) then "\t#F:C16-delete-after-recreate-resurrects" else ""
     if d.s.live then (d, showKeys (memOf d d.s.gen) ++ back d)
     else if d.fileV.isEmpty then (d, "keys=[]")
@@ -228,7 +298,9 @@ def run (args : List String) : IO UInt32 := do
   let kv := parseArgs args
   let yes := fun (k : String) => arg kv k == "yes"
   let cfg : Cfg := { destroyRechecks := yes "destroyRechecksAfterDrain",
-                     atomicSummon := yes "listenerReadsTouchUnderLock" && yes "summonTakesVigil" }
+                     atomicSummon := yes "listenerReadsTouchUnderLock" && yes "summonTakesVigil",
+                     summonWaitsForUnmap := arg kv "summonWaitsForUnmap" != "no",
+                     stopWaitsUntilClosed := arg kv "stopWaitsUntilClosed" != "no" }
   lineLoop step { cfg := cfg, s := init [], gens := [], fileV := [], ths := [], next := 10, flagged := false,
                   recreateDropsMarker := arg kv "recreateDropsDeleteMarker" != "no", markers := [], ackDel := [] }
   return 0
